@@ -115,6 +115,7 @@ struct OpResult {
     uint32_t nalloc = 0;  // allocation requests made by the library inside the op
     uint32_t nfailed = 0; // of which failed by injection
     uint32_t outstanding = 0; // library allocations made in this op and still live at its return
+    uint32_t double_free = 0; // blocks the library released a second time (the second free is not executed)
     uint32_t wr_faults = 0, rd_faults = 0;
     std::vector<HCall> hcalls;
     std::vector<int> footprint; // indices into statics symbol table (solo pass only)
@@ -272,6 +273,7 @@ struct AllocRec {
     int task, op;
 };
 extern std::vector<AllocRec> g_live; // library allocations currently outstanding
+extern std::vector<void *> g_freed;   // blocks released by the library in this pass and not handed out again since
 uint32_t site_id(uintptr_t ret_addr);
 std::string site_name(uint32_t id);
 extern std::vector<uint64_t> g_site_reached, g_site_failed; // per site id
